@@ -306,6 +306,30 @@ func runC17(p *core.Prog, r *core.Report, tier string) {
 	c17FreshProposerConfig(p, r)
 	c17FanOut(p, r, la)
 	c12Pairing(p, r, la)
+	c17Globals(p, r, la)
+	// collections handed out by a duty's getters belong to the duty, which is shared between the jobs of several
+	// slots and the records published for verification: consumers read them, never change them
+	nGet, nMut := 0, 0
+	for _, fn := range p.SrcFuncs() {
+		core.EachInstr(fn, func(in ssa.Instruction) {
+			if c, ok := in.(*ssa.Call); ok {
+				if _, ok := dutyGetterResult(c); ok && isCollection(c.Type()) {
+					nGet++
+				}
+			}
+		})
+		for _, m := range collectionMutations(fn, func(v ssa.Value) bool {
+			_, ok := dutyGetterResult(v)
+			return ok && isCollection(v.Type())
+		}) {
+			nMut++
+			r.Violate("C17.h", fmt.Sprintf("%s|mutates-duty-collection#%d", core.FnKey(fn), nMut), p.Pos(m.Pos()), "a collection obtained from a duty's getter is changed in place: the duty (and the map/slice behind it) is shared with the jobs of other slots and with published records that other goroutines read without a lock")
+		}
+	}
+	if nMut == 0 {
+		r.Hold("C17.h", "duty-collections-read-only", "", fmt.Sprintf("none of the %d uses of a duty's collection getters changes the collection", nGet))
+	}
+	r.Floor("C17.h uses of duty collection getters", nGet, 10)
 	for k, n := range roots.Registrations {
 		r.Count("thread-root registrations: "+k, n)
 	}
@@ -1042,4 +1066,131 @@ func structOfType(t types.Type) *types.Struct {
 	}
 	s, _ := t.Underlying().(*types.Struct)
 	return s
+}
+
+// c17Globals: package-level collections that are written after initialisation are accessed under one
+// package-level mutex at every access (reads included: a lock-free fast path in front of a locked insert is
+// a data race on the map).
+func c17Globals(p *core.Prog, r *core.Report, la *core.LockAnalysis) {
+	type acc struct {
+		fn    *ssa.Function
+		in    ssa.Instruction
+		write bool
+		kind  string
+	}
+	accs := map[*ssa.Global][]acc{}
+	for _, fn := range p.SrcFuncs() {
+		top := fn
+		for top.Parent() != nil {
+			top = top.Parent()
+		}
+		if top.Name() == "init" || strings.HasPrefix(top.Name(), "init#") {
+			continue
+		}
+		core.EachInstr(fn, func(in ssa.Instruction) {
+			switch x := in.(type) {
+			case *ssa.Store:
+				if g, ok := x.Addr.(*ssa.Global); ok && isCollection(g.Type().(*types.Pointer).Elem()) {
+					accs[g] = append(accs[g], acc{fn, in, true, "assign"})
+				}
+			case *ssa.UnOp:
+				g, ok := x.X.(*ssa.Global)
+				if !ok || x.Op != token.MUL || !isCollection(x.Type()) || x.Referrers() == nil {
+					return
+				}
+				for _, ref := range *x.Referrers() {
+					switch y := ref.(type) {
+					case *ssa.MapUpdate:
+						if y.Map == ssa.Value(x) {
+							accs[g] = append(accs[g], acc{fn, ref, true, "insert"})
+						}
+					case *ssa.Lookup:
+						if y.X == ssa.Value(x) {
+							accs[g] = append(accs[g], acc{fn, ref, false, "lookup"})
+						}
+					case *ssa.Range:
+						accs[g] = append(accs[g], acc{fn, ref, false, "range"})
+					case *ssa.Call:
+						if b, ok := y.Call.Value.(*ssa.Builtin); ok {
+							switch b.Name() {
+							case "delete":
+								accs[g] = append(accs[g], acc{fn, ref, true, "delete"})
+							case "len":
+								accs[g] = append(accs[g], acc{fn, ref, false, "len"})
+							case "append":
+								accs[g] = append(accs[g], acc{fn, ref, false, "append"})
+							}
+						}
+					case *ssa.IndexAddr:
+						accs[g] = append(accs[g], acc{fn, ref, false, "index"})
+					}
+				}
+			}
+		})
+	}
+	n := 0
+	var gs []*ssa.Global
+	for g := range accs {
+		gs = append(gs, g)
+	}
+	sort.Slice(gs, func(i, j int) bool { return gs[i].String() < gs[j].String() })
+	for _, g := range gs {
+		as := accs[g]
+		written := false
+		for _, a := range as {
+			if a.write {
+				written = true
+			}
+		}
+		if !written {
+			continue
+		}
+		n++
+		held := func(a acc) core.LockSet {
+			h := core.LockSet{}
+			for l := range la.HeldAt(a.fn)[a.in] {
+				h[l] = true
+			}
+			for l := range la.EntryHeld(a.fn) {
+				h[l] = true
+			}
+			return h
+		}
+		// the guard: the package-level mutex held at most accesses
+		cnt := map[core.FieldID]int{}
+		for _, a := range as {
+			for l := range held(a) {
+				if l.Field.Owner == "global" {
+					cnt[l.Field]++
+				}
+			}
+		}
+		var guard core.FieldID
+		best := 0
+		for f, c := range cnt {
+			if c > best || c == best && f.Name < guard.Name {
+				guard, best = f, c
+			}
+		}
+		name := core.RelPkg(g.Pkg.Pkg.Path()) + "." + g.Name()
+		if best == 0 {
+			r.Violate("C17.g", name+"|guarded", p.Pos(g.Pos()), "package-level collection "+name+" is written after initialisation and no access holds a package-level mutex")
+			continue
+		}
+		for i, a := range as {
+			ok := held(a).HasField(guard, a.write)
+			r.Check(ok, "C17.g", fmt.Sprintf("%s|%s#%d|under-%s", name, a.kind, i+1, guard.Name), p.Pos(a.in.Pos()), a.kind+" under "+guard.Name,
+				fmt.Sprintf("%s of package-level collection %s in %s without %s held (it is held at %d of %d accesses): a data race with the locked writers (concurrent map read and map write)", a.kind, name, core.FnKey(a.fn), guard.Name, best, len(as)))
+		}
+	}
+	r.Count("package-level collections written after initialisation", n)
+	r.Floor("C17.g package-level collections written after initialisation", n, 1)
+}
+
+func isCollection(t types.Type) bool {
+	switch t.Underlying().(type) {
+	case *types.Map, *types.Slice:
+		return true
+	}
+	return false
 }
